@@ -194,6 +194,20 @@ func c07Binary(ctx *Ctx, i int) {
 		_, body, _ := httpRPC(port, fmt.Sprintf(`{"jsonrpc":"2.0","id":1,"method":"pool_withdraw","params":[%q,%q,%d]}`, sig, wallet, n))
 		return strings.TrimSpace(body)
 	}
+	// first the settlement fails (the chain's node refuses the transaction): the withdrawal is
+	// answered with an error and nothing is taken off the ledger
+	c.hb.mu.Lock()
+	c.hb.fail = true
+	c.hb.mu.Unlock()
+	failed := withdraw()
+	c.hb.mu.Lock()
+	c.hb.fail = false
+	c.hb.mu.Unlock()
+	afterFailed := account()
+	log = append(log, "pool_withdraw while the chain refuses transactions: "+failed, "pool_account after it: "+afterFailed)
+	if !strings.Contains(failed, `"error"`) || !strings.Contains(afterFailed, `"credit":`+cred.String()) {
+		mon = append(mon, fmt.Sprintf("c01-binary-failed-settlement: the chain refused the settlement transaction; the binary answered pool_withdraw with %s and pool_account then shows %s: a withdrawal that did not settle is an error and leaves the wallet's credit (%s) on the ledger", failed, afterFailed, cred))
+	}
 	first := withdraw()
 	second := withdraw()
 	c.sim.Commit()
